@@ -1,5 +1,6 @@
 import PqlModel.Props.C03
 import PqlModel.Props.C02Split
+import PqlModel.Props.C05SplitRefines
 #print axioms Pql.C03.C03_bare_key_rewrite
 #print axioms Pql.C03.C03_quoted_key_not_rewritten
 #print axioms Pql.C03.C03_two_conditions_anded
